@@ -15,13 +15,13 @@ CLAIMS = {
    text="Narrow structural necessary condition of 'come with valid witnesses': a witness slice that ChromaticIndex, ChromaticNumber/dfsDsatur, GreedyColor, IsKColorable or Degeneracy allocates and returns is not allocated with provably zero length and has at least one statically reachable populating store; none of the invariant functions writes its graph argument; a clique that AllMaximalCliques has sent on its result channel is never written again (every write that may reach a sent backing array goes through the current iteration's own allocation). Optimality, exactness and properness are not decided.",
    note="A witness whose every store is dead or whose length is provably 0 is wrong for every non-empty input."),
  "C05": dict(design="§2 C05", technique="CFG path rule over E-EFF write attribution (COUPLE), exact SSA pattern rule for single-edge methods, E-EFF freshness/purity, E-PROVE packed-triangle discipline (TRI), use-site rule for adjacency bytes (EDGEBYTE), row-ownership rule (ROWS)",
-   text="Decides three structural clauses for every edit history: adjacency storage is never changed on a path that leaves NumberOfEdges or DegreeSequence unwritten, and the single-edge methods update count and both endpoint degrees with the matching sign; Copy/InducedSubgraph results share no memory with their source and write nothing reachable from it; every index into DenseGraph.Edges in the representation's own methods is the lower-triangle cell of the two vertices named (0 <= I < J proved); adjacency bytes of an existing graph are only tested against zero (never used numerically); every SparseGraph row owns its backing array. Does not decide agreement with the adjacency-set model.",
+   text="Decides three structural clauses for every edit history: adjacency storage is never changed on a path that leaves NumberOfEdges or DegreeSequence unwritten, and the single-edge methods update count and both endpoint degrees with the matching sign; Copy/InducedSubgraph results share no memory with their source and write nothing reachable from it; every index into DenseGraph.Edges in the representation's own methods is the lower-triangle cell of the two vertices named (0 <= I < J proved); adjacency bytes of an existing graph are only tested against zero (never used numerically); every SparseGraph row owns its backing array and is never the caller's own slice. Does not decide agreement with the adjacency-set model.",
    note="Vertex numbers passed as parameters are non-negative; data-derived operands are recorded as preconditions, not judged."),
  "C06": dict(design="§2 C06", technique="E-EFF freshness of constructors, typed-AST composite-literal completeness, E-PROVE packed-triangle discipline over all generators/transformations/decoders, E-EFF ownership (OWNER) and statelessness of views (VIEW), use-site rule for adjacency bytes (EDGEBYTE), edge/degree pairing (DEGSYNC), E-PROVE range of hand-filled counts (COUNTS), three-valued evaluation of IsEdge on the diagonal (IRREFLEXIVE)",
-   text="Decides: NewDense/NewSparse keep no caller memory (the aliasing clause); no DenseGraph/SparseGraph literal with adjacency leaves out its counts; every hand-written index into packed-triangle storage in generators, transformations, decoders and the search is a lower-triangle cell for all accepted parameter values (closed form with 0 <= I < J proved, running index, or sweep); only SparseGraph's own edit methods write an existing SparseGraph; the live views keep no state; no transformation uses the numeric value of an input adjacency byte; an edge recorded at cell (I,J) is counted into the returned degree sequence at exactly I and J; hand-filled NumberOfEdges is >= 0 and hand-filled degrees lie in [0, n-1] for every accepted argument; no IsEdge implementation can answer true for i == j. Does not decide that each family has exactly its defining edges, nor full agreement of hand-filled counts with adjacency.",
+   text="Decides: NewDense/NewSparse keep no caller memory (the aliasing clause); no DenseGraph/SparseGraph literal with adjacency leaves out its counts; every hand-written index into packed-triangle storage in generators, transformations, decoders and the search is a lower-triangle cell for all accepted parameter values (closed form with 0 <= I < J proved, running index, or sweep); only SparseGraph's own edit methods write an existing SparseGraph; the live views keep no state; no transformation uses the numeric value of an input adjacency byte; an edge recorded at cell (I,J) is counted into the returned degree sequence at exactly I and J; every SparseGraph row owns its backing array; hand-filled NumberOfEdges is >= 0 and hand-filled degrees lie in [0, n-1] for every accepted argument; no IsEdge implementation can answer true for i == j. Does not decide that each family has exactly its defining edges, nor full agreement of hand-filled counts with adjacency.",
    note="Data-derived operands (Pruefer codes, Multicode bytes, part sizes) are recorded as preconditions; constructor classification is informational."),
  "C07": dict(design="§2 C07", technique="constant/shape extraction from SSA of the four codecs compared against the format definition (header stores, header sums, thresholds, markers, bit-packing roles, padding threshold); edge/degree pairing in the Multicode decoder (DEGSYNC)",
-   text="Decides that the four hand-written copies of the graph6/sparse6 size header agree with the published format (thresholds 62/258047/2^36-1, marker bytes, sextet shifts, mask and offset, header lengths, data offsets) and that the bit-packing constants (6 bits per byte, msb first, offset 63, range [63,126] checked before decoding, k = bits(n-1)) are the format's in every codec - including the long-header branches no test executes; no codec uses the numeric value of an adjacency byte; sparse6's 0-bit padding exception applies from exactly k+1 padding bits; the Multicode decoder counts each edge at its own two end points. Does not decide round-trip equality.",
+   text="Decides that the four hand-written copies of the graph6/sparse6 size header agree with the published format (thresholds 62/258047/2^36-1, marker bytes, sextet shifts, mask and offset, header lengths, data offsets) and that the bit-packing constants (6 bits per byte, msb first, offset 63, range [63,126] checked before decoding, k = bits(n-1)) are the format's in every codec - including the long-header branches no test executes; no codec uses the numeric value of an adjacency byte; sparse6's 0-bit padding exception applies from exactly k+1 padding bits; the optional header is removed as a prefix, never as a character set; the Multicode decoder counts each edge at its own two end points. Does not decide round-trip equality.",
    note="Format constants transcribed from formats.txt; unrecognised shapes are 'undecided' and fail."),
  "C08": dict(design="§2 C08", technique="goal-directed inductive bounds prover on go/ssa (E-PROVE): index/slice/make/divisor/shift obligations, ranking functions for loops, callee panic preconditions refuted at call sites",
    text="Decides, for every input string, that Graph6Decode and Sparse6Decode themselves never index out of range, never hit an explicit or callee panic, and terminate: every bounds obligation is discharged by the prover from dominating guards (polynomial normal form, division facts, phi-induction), every loop has a ranking function, every callee's explicit panic is refuted at the call site or its stated range contract is proved. Does not decide which malformed strings are rejected, nor the re-encode/decode clause.",
@@ -38,14 +38,14 @@ CLAIMS = {
  "C20": dict(design="§2 C20", technique="CFG path rule on go/ssa for error propagation of every write reaching the io.Writer + E-PROVE domain proof for the callback arguments",
    text="Decides the fault clause for every failure position: every direct write to w and the Flush of the tabwriter built on w has its error tested, the failure edge returns that error, no return precedes the test (buffered tabwriter cell writes are exempt with a stated reason); error-recording writer wrappers must not overwrite an earlier error and their error must be returned; and the weight callback is only ever called with 0 <= j < i < n. Does not decide the literal output text.",
    note="text/tabwriter buffers rows until Flush and returns the underlying write error from Flush."),
- "C04": dict(design="§2 C04", technique="exhaustive field classification + SSA data-flow (transfer) matching Save<->Load + gob type walk + E-EFF purity",
-   text="Structural half of resumability, for every save point: each GraphIterator/searchGraph field is classified (an unclassified field fails), every saved field flows iterator->record in Save and record->iterator in Load (graph restored field by field), cache fields are only ever nil after Load, every record field is exported and gob-encodable, Save writes nothing reachable from the iterator and the loaded iterator does not keep the reader. Does not decide equality of the resumed sequence.",
+ "C04": dict(design="§2 C04", technique="exhaustive field classification + SSA data-flow (transfer) matching Save<->Load + gob type walk + E-EFF purity + E-EFF package-level-state rule for the search package (GLOBAL)",
+   text="Structural half of resumability, for every save point: each GraphIterator/searchGraph field is classified (an unclassified field fails), every saved field flows iterator->record in Save and record->iterator in Load (graph restored field by field), cache fields are only ever nil after Load, every record field is exported and gob-encodable, Save writes nothing reachable from the iterator, the loaded iterator does not keep the reader, and no function of the search package writes or hands out package-level state (nothing can be shared between iterators, or between a record and its iterator, behind the caller's back). Does not decide equality of the resumed sequence.",
    note="encoding/gob round-trips exported fields; the scratch/cache classification table is trusted beyond its one-line reasons."),
  "C12": dict(design="§2 C12", technique="CFG path rules on go/ssa (no write before error return; cut-set of order-check edges) + E-PROVE lifted precondition at call sites + E-EFF purity / who-writes + typed SSA rule against rune-wise iteration (BYTEWISE)",
    text="Decides: a rejected Add leaves the builder untouched (no receiver write on any path to an error return), the order check cannot be bypassed and admits neither duplicates nor smaller words (cut-set over bytes.Compare edge values), replaceOrRegister is never called on a childless node (precondition len(links)>=1 proved at all call sites), queries never write the automaton, and no function of the package walks a word rune-wise (range over a string, rune conversions), which would change labels >= 0x80. Does not decide accepted language, minimality or ranks.",
    note="bytes.Compare in {-1,0,1}; E-EFF may-write summaries; lazy Initialise is the one named exception."),
- "C13": dict(design="§2 C13", technique="E-EFF write summaries with module-restricted CHA for Searcher calls; per-instruction write attribution inside Search; CFG pairing rule for Step/Backstep passes against a tracking stack (BALANCE)",
-   text="Decides the structural part of 'a search leaves the Dawg unchanged and only Step/Backstep change a searcher': Search writes nothing reachable from the Dawg; AllowStep/AllowWord/Chosen of both searchers write nothing reachable from the receiver (including through shared slices of value receivers); inside Search only invoke Step/Backstep write searcher memory; every searcher receives as many Backstep as Step calls on every path to a return (tracking-stack argument). Does not decide result set, order, ranks, or that one Backstep undoes one Step.",
+ "C13": dict(design="§2 C13", technique="E-EFF write summaries with module-restricted CHA for Searcher calls; per-instruction write attribution inside Search; CFG pairing rule for Step/Backstep passes against a tracking stack (BALANCE); E-PROVE range obligations on narrowing integer conversions in the search (NARROW)",
+   text="Decides the structural part of 'a search leaves the Dawg unchanged and only Step/Backstep change a searcher': Search writes nothing reachable from the Dawg; AllowStep/AllowWord/Chosen of both searchers write nothing reachable from the receiver (including through shared slices of value receivers); inside Search only invoke Step/Backstep write searcher memory; every searcher receives as many Backstep as Step calls on every path to a return (tracking-stack argument); no link number, depth or count is converted to a narrower integer type unless proved to fit. Does not decide result set, order, ranks, or that one Backstep undoes one Step.",
    note="Closed world: searchers are the module's two implementations."),
  "C15": dict(design="§2 C15", technique="typed-AST permutation-assignment rule (SWAP) + E-PROVE cell distinctness + E-EFF field-writer scan",
    text="Structural necessary condition, decided for all inputs: every store into the permutation iterators' state slices is an in-place permutation of cells, and only Next writes them, so every yielded value is a rearrangement of the initial multiset; iterator constructors keep no caller slice. Does not decide completeness, uniqueness or order.",
